@@ -331,7 +331,18 @@ class C06(Plugin):
                 b = b"".join(parts)
                 if rng.random() < 0.15:
                     b = b"y" * rng.choice([900, 990, 1000, 1010, 1020]) + b
-                if rng.random() < 0.5:
+                q = rng.random()
+                if q < 0.25:
+                    # whole parse: one or two declarations, possibly beyond the prescan window, then non-ASCII text
+                    labs2 = [x.encode() for x in LABELS_OK[:11]]
+                    body = b"<p>\xf0\xd2\xc9\xd7\xc5\xd4 caf\xc3\xa9</p>"
+                    pad = rng.choice([b"", b"", b"<!--" + b"x" * 1100 + b"-->"])
+                    metas = b"".join(rng.choice(PIECES[:8]) % rng.choice(labs2) for _ in range(rng.randint(0, 2)))
+                    args = [rng.choice([None, None, None, None] + LABELS_OK[:8]) for _ in range(5)]
+                    if rng.random() < 0.7:
+                        args[0] = args[1] = None
+                    yield {"k": 4, "b": list(pad + metas + body + rng.choice([b"", metas])), "args": args}
+                elif q < 0.6:
                     yield {"k": 0, "b": list(b)}
                 else:
                     if rng.random() < 0.3:
@@ -339,12 +350,64 @@ class C06(Plugin):
                     args = [rng.choice([None, None, None] + LABELS_OK[:10] + LABELS_BAD[:3]) for _ in range(5)]
                     yield {"k": 3, "b": list(b), "args": args}
 
+    @staticmethod
+    def _expected_final(b, args):
+        """the encoding the documented mechanism must end with: a certain source, else the tentative one unless the first
+        valid <meta> declaration the tree constructor meets names another encoding (then a re-parse with it)"""
+        import webencodings
+        import html5lib
+        from html5lib import _inputstream
+
+        def lk(x):
+            if x is None:
+                return None
+            if isinstance(x, bytes):
+                try:
+                    x = x.decode("ascii")
+                except UnicodeDecodeError:
+                    return None
+            try:
+                x.encode("ascii")
+            except UnicodeEncodeError:
+                return None
+            e = webencodings.lookup(x)
+            return e.name if e else None
+        bom = "utf-8" if b.startswith(b"\xef\xbb\xbf") else None
+        if bom is None and b[:4] not in (b"\xff\xfe\x00\x00", b"\x00\x00\xfe\xff"):
+            bom = "utf-16le" if b.startswith(b"\xff\xfe") else "utf-16be" if b.startswith(b"\xfe\xff") else None
+        ov, tr, pa, li, de = [lk(a) for a in args]
+        for c in (bom, ov, tr):
+            if c:
+                return c, True
+        meta = _inputstream.EncodingParser(b[:1024]).getEncoding()
+        meta = meta.name if meta else None
+        if meta in ("utf-16le", "utf-16be"):
+            meta = "utf-8"
+        if pa and pa.startswith("utf-16"):
+            pa = None
+        tentative = [x for x in (meta, pa, li, de, "windows-1252") if x][0]
+        doc = html5lib.parse(webencodings.lookup(tentative).codec_info.streamreader(io.BytesIO(b), "replace").read(),
+                             treebuilder="dom")
+        for m in doc.getElementsByTagName("meta"):
+            label = None
+            if m.hasAttribute("charset"):
+                label = lk(m.getAttribute("charset"))
+            elif m.hasAttribute("content") and m.getAttribute("http-equiv").lower() == "content-type":
+                r = _inputstream.ContentAttrParser(_inputstream.EncodingBytes(m.getAttribute("content").encode("utf-8"))).parse()
+                label = lk(bytes(r)) if r is not None else None
+            if label is None or label in ("utf-16le", "utf-16be"):
+                continue
+            return label, False
+        return tentative, False
+
     def encode(self, case):
         k = case["k"]
         if k == 0:
             return [0, case["b"]]
         if k in (1, 2):
             return [k, case["s"]]
+        if k == 4:
+            return None
         return [3, case["b"]] + [[] if a is None else [a] for a in case["args"]]
 
     def impl(self, case):
@@ -361,6 +424,17 @@ class C06(Plugin):
             return [] if r is None else [bytes(r).decode("latin-1")]
         names = ["override_encoding", "transport_encoding", "same_origin_parent_encoding", "likely_encoding", "default_encoding"]
         kw = {n: a for n, a in zip(names, case["args"])}
+        if k == 4:
+            import html5lib
+            p = html5lib.HTMLParser(tree=html5lib.getTreeBuilder("dom"))
+            doc = p.parse(bytes(case["b"]), useChardet=False, **kw)
+            enc = p.documentEncoding
+            import webencodings
+            # decode exactly as a byte stream is decoded (incremental codec reader, errors='replace')
+            text = webencodings.lookup(enc).codec_info.streamreader(io.BytesIO(bytes(case["b"])), "replace").read()
+            ref = html5lib.parse(text, treebuilder="dom")
+            same = trees.coalesce(trees.dom_forest(doc)) == trees.coalesce(trees.dom_forest(ref))
+            return [enc, same]
         st = _inputstream.HTMLBinaryInputStream(bytes(case["b"]), useChardet=False, **kw)
         return [st.charEncoding[0].name, st.charEncoding[1] == "certain"]
 
@@ -381,6 +455,12 @@ class C06(Plugin):
                     dev = None
                 cls = "prescan-recorded-deviation" if dev == got else "prescan-differs-from-standard"
                 v.append((cls, repr((b[:200], got, want))))
+        if k == 4:
+            want, _ = self._expected_final(bytes(case["b"]), case["args"])
+            if out[0] != want:
+                v.append(("final-encoding-not-the-selected-one", repr((bytes(case["b"])[:120], case["args"], out[0], want))))
+            if not out[1]:
+                v.append(("tree-differs-from-decoding-with-reported-encoding", repr((bytes(case["b"])[:120], out[0]))))
         if k == 3:
             # the documented precedence, evaluated independently
             import webencodings
